@@ -266,9 +266,7 @@ def addPath (rfc : Bool) (ord : List (Str × Str) → List (Str × Str)) :
                 | some items =>
                   match listStep km (ord km) items
                       (fun it => addPath rfc ord fuel ('/' :: refine) val it)
-                      (fun _ => nilAdd rfc (fun p => match fuel with
-                          | 0 => .error .fuel
-                          | f + 1 => addPath rfc ord f p val (.obj [])) ('/' :: refine) val) with
+                      (fun _ => nilAdd rfc (fun p => addPath rfc ord fuel p val (.obj [])) ('/' :: refine) val) with
                   | .error e => .error e
                   | .ok items' => .ok (.obj (objSet listName (.arr items') m))
         else
